@@ -21,6 +21,7 @@ import (
 	"crypto/sha256"
 	"encoding/base64"
 	"encoding/json"
+	"errors"
 	"fmt"
 	"io"
 	"net/http"
@@ -103,10 +104,17 @@ func (o op) String() string {
 // model state: sequenced entry ids in order, queued entry ids in order
 type mstate struct {
 	seq, queue []int
-	resigned   int // how often the backend re-published the current tree with a later root timestamp
+	resigned   int  // how often the backend re-published the current tree with a later root timestamp
+	signFailed bool // a get-sth for the current tree head met a failing signer (HSM hiccup)
 }
 
-func (s mstate) key() string { return fmt.Sprint(s.seq, "|", s.queue, "|", s.resigned) }
+func (s mstate) key() string {
+	k := fmt.Sprint(s.seq, "|", s.queue, "|", s.resigned)
+	if s.signFailed {
+		k += "|signer failed once on this head"
+	}
+	return k
+}
 func (s mstate) has(e int) bool {
 	for _, x := range append(append([]int{}, s.seq...), s.queue...) {
 		if x == e {
@@ -116,11 +124,14 @@ func (s mstate) has(e int) bool {
 	return false
 }
 func (s mstate) apply(o op) mstate {
-	n := mstate{append([]int{}, s.seq...), append([]int{}, s.queue...), s.resigned}
+	n := mstate{append([]int{}, s.seq...), append([]int{}, s.queue...), s.resigned, s.signFailed}
 	switch o.Kind {
+	case "signfail":
+		n.signFailed = true
 	case "republish":
 		if n.resigned < 1 && len(n.seq) > 0 {
 			n.resigned++
+			n.signFailed = false
 		}
 	case "add":
 		if !n.has(o.Entry) {
@@ -131,10 +142,12 @@ func (s mstate) apply(o op) mstate {
 			n.seq = append(n.seq, n.queue[0])
 			n.queue = n.queue[1:]
 			n.resigned = 0
+			n.signFailed = false
 		}
 	case "seqall":
 		if len(n.queue) > 0 {
 			n.resigned = 0
+			n.signFailed = false
 		}
 		n.seq = append(n.seq, n.queue...)
 		n.queue = nil
@@ -151,13 +164,29 @@ type inst struct {
 	key   *pki.Key
 	scts  map[int]*ct.AddChainResponse // SCT issued at the first 200 for each entry
 	lc    *client.LogClient
+	// signFail: while set, the log's signer refuses to sign
+	signFail *atomic.Bool
+}
+
+// flakySigner is the log key behind a switch (an HSM that is momentarily unavailable).
+type flakySigner struct {
+	crypto.Signer
+	fail *atomic.Bool
+}
+
+func (f flakySigner) Sign(rand io.Reader, digest []byte, opts crypto.SignerOpts) ([]byte, error) {
+	if f.fail.Load() {
+		return nil, errors.New("signer unavailable (injected)")
+	}
+	return f.Signer.Sign(rand, digest, opts)
 }
 
 func newInst(logKey string) (*inst, error) {
 	k := logKeys[logKey]
 	back := reflog.New(42)
 	clk := &fe.Clock{T: time.Unix(1, 0)}
-	f, err := fe.New(fe.Config{LogID: 42, Prefix: "c06", Roots: [][]byte{root.DER}, Signer: k.Priv, Client: back, Clock: clk})
+	sf := &atomic.Bool{}
+	f, err := fe.New(fe.Config{LogID: 42, Prefix: "c06", Roots: [][]byte{root.DER}, Signer: flakySigner{k.Priv, sf}, Client: back, Clock: clk})
 	if err != nil {
 		return nil, err
 	}
@@ -165,7 +194,7 @@ func newInst(logKey string) (*inst, error) {
 	if err != nil {
 		return nil, err
 	}
-	return &inst{f: f, back: back, clock: clk, key: k, scts: map[int]*ct.AddChainResponse{}, lc: lc}, nil
+	return &inst{f: f, back: back, clock: clk, key: k, scts: map[int]*ct.AddChainResponse{}, lc: lc, signFail: sf}, nil
 }
 
 type nolog struct{}
@@ -233,6 +262,12 @@ func (c *checker) apply(in *inst, s mstate, o op, path []op) {
 		} else {
 			in.scts[o.Entry] = sct
 		}
+	case "signfail":
+		// one get-sth while the signer is down: whatever it answers (an error, or the cached head if the
+		// tree has not moved), it must not spoil what is served afterwards
+		in.signFail.Store(true)
+		in.f.Get(ct.GetSTHPath)
+		in.signFail.Store(false)
 	case "republish":
 		// the signer re-publishes the same tree with a later timestamp (Trillian does this
 		// periodically); a monitor polled get-sth just before
@@ -555,7 +590,7 @@ func TestCheck(t *testing.T) {
 	for e := range entries {
 		ops = append(ops, op{Kind: "add", Entry: e})
 	}
-	ops = append(ops, op{Kind: "seq1"}, op{Kind: "seqall"}, op{Kind: "republish"})
+	ops = append(ops, op{Kind: "seq1"}, op{Kind: "seqall"}, op{Kind: "republish"}, op{Kind: "signfail"})
 	r.Rule(fmt.Sprintf("explicit-state BFS over histories: state = (sequenced entries in order, queued entries in order) of the reference backend behind a real front end; operations = add-chain/add-pre-chain of 4 entries (cert root-omitted, cert root-included, precert, pre-issued precert; fresh or duplicate at a later clock), sequencing steps of 1 or all, root timestamps with sub-millisecond nanos; states with up to %d sequenced entries; in every state every read endpoint with every in-range (and first out-of-range) parameter combination, for a P-256 and an RSA log key. Each state is built by replaying its shortest path on a fresh instance; the same state reached by a different last operation must serve identical bytes", maxSeq))
 	r.Assume("the reference backend (ref/reflog) stands for Trillian: de-duplication by identity hash echoing the stored leaf, explicit sequencing, RFC 6962 proofs from ref/merkle",
 		"the front end keeps no state that may influence a response except the STH signature cache, which is exercised by repeating get-sth")
@@ -631,7 +666,9 @@ func TestCheck(t *testing.T) {
 						c.apply(in2, s2, o, n.path)
 						transitions.Add(1)
 						// the real backend must now be in the model's successor state
-						if got, want := backendShape(in2), ns; got != want.key() {
+						want := ns
+						want.signFailed = false // not a property of the backend
+						if got := backendShape(in2); got != want.key() {
 							c.viol("backend-state-differs-from-model", append(append([]op{}, n.path...), o), "backend %s, model %s", got, want.key())
 							continue
 						}
@@ -748,7 +785,7 @@ func backendShape(in *inst) string {
 // altPath builds a different operation path to the same state: entries are added
 // one at a time and sequenced one at a time (with duplicate submissions in between).
 func altPath(s mstate) []op {
-	if len(s.seq)+len(s.queue) == 0 || s.resigned > 0 {
+	if len(s.seq)+len(s.queue) == 0 || s.resigned > 0 || s.signFailed {
 		return nil
 	}
 	var p []op
